@@ -15,6 +15,7 @@ import (
 	"net"
 	"sort"
 	"strconv"
+	"strings"
 	"sync"
 	"time"
 
@@ -148,6 +149,8 @@ type Cluster struct {
 	NoLongPoll        bool
 	GateResponses     bool
 
+	pieces       []int // split points of the response being written (Answer "split:...")
+	pieceGap     time.Duration
 	nextMember   int
 	start        time.Time
 	shape        FetchShape
@@ -449,7 +452,16 @@ func (c *Cluster) writeFrame(e *Entry, body []byte) {
 		w.B = c.Mutate(e, w.B, nil)
 	}
 	e.RespBytes = len(w.B)
-	e.sc.srv.Write(w.B)
+	c.send(e, w.B)
+}
+
+// send writes a response frame, whole or (Answer "split:...") in pieces.
+func (c *Cluster) send(e *Entry, frame []byte) {
+	if len(c.pieces) > 0 {
+		e.sc.srv.WritePieces(frame, c.pieces, c.pieceGap)
+		return
+	}
+	e.sc.srv.Write(frame)
 }
 
 func (c *Cluster) writeMsg(e *Entry, msg protocol.Message) {
@@ -462,7 +474,7 @@ func (c *Cluster) writeMsg(e *Entry, msg protocol.Message) {
 		frame = c.Mutate(e, frame, msg)
 	}
 	e.RespBytes = len(frame)
-	e.sc.srv.Write(frame)
+	c.send(e, frame)
 }
 
 // Answer answers a pending request. alt:
@@ -473,6 +485,9 @@ func (c *Cluster) writeMsg(e *Entry, msg protocol.Message) {
 //	"drop"              close the connection without answering, request not applied
 //	"apply-drop"        apply the request, then close the connection without answering
 //	"cut:<k>"           normal answer, but only k bytes of the response frame are delivered, then the connection closes
+//	"split:<k1>,<k2>,..[@<ms>]" normal answer, complete, but the client receives the response frame in pieces: the
+//	                    bytes before k1 at once, those before k2 <ms> (default 10) of virtual time later, and so on;
+//	                    nothing is lost and the connection stays open (a response that arrives in several segments)
 //	"stall"             never answer (the request stays unanswered; the connection is blocked behind it)
 //	"raw:<hex>"         (internal) write the given frame
 func (c *Cluster) Answer(e *Entry, alt string) {
@@ -504,6 +519,21 @@ func (c *Cluster) Answer(e *Entry, alt string) {
 	if alt == "apply-drop" {
 		mode = ""
 	}
+	if len(alt) > 6 && alt[:6] == "split:" {
+		spec, gap := alt[6:], 10
+		if i := strings.IndexByte(spec, '@'); i >= 0 {
+			gap, _ = strconv.Atoi(spec[i+1:])
+			spec = spec[:i]
+		}
+		c.pieces = nil
+		for _, f := range strings.Split(spec, ",") {
+			if k, err := strconv.Atoi(f); err == nil {
+				c.pieces = append(c.pieces, k)
+			}
+		}
+		c.pieceGap = time.Duration(gap) * time.Millisecond
+		mode = ""
+	}
 	if alt == "apply-drop" {
 		// the response is produced to apply side effects; it must not reach the client
 		sc.srv.LimitPeerReadsAfter(0)
@@ -514,6 +544,7 @@ func (c *Cluster) Answer(e *Entry, alt string) {
 		sc.cut = true
 	}
 	c.respond(e, mode)
+	c.pieces = nil
 	if cut >= 0 && c.HalfCloseOnCut {
 		c.finish(e, alt)
 		c.mu.Unlock()
